@@ -312,11 +312,12 @@ def build_psms(tab, order, colnames=None, rename=None):
     return df
 
 
-def dataset(df, enforce=True):
+def dataset(df, enforce=True, feature_columns=None):
     import mokapot
 
     return mokapot.dataset.LinearPsmDataset(df, target_column="target", spectrum_columns="spec",
-                                           peptide_column="pep", copy_data=True, enforce_checks=enforce)
+                                           peptide_column="pep", copy_data=True, enforce_checks=enforce,
+                                           feature_columns=feature_columns)
 
 
 def classify_exc(e):
@@ -350,12 +351,19 @@ def run_variant(case, var, cache=None):
     nfeat = len(tab["feats"][0])
     names = feat_names(nfeat)
     obs = dict(status=None, fits=[], scores=[], weights=None, model=None, error=None, events=[])
-    key = tuple(var["order"])
+    # every third variant names its features explicitly, in the logical order, over a frame whose physical column
+    # order is reversed: the features (training matrix, stored names) are the NAMED columns in the order given
+    explicit = (sum(var["order"]) + int(var["seed"])) % 3 == 0
+    key = (tuple(var["order"]), explicit)
     if cache is not None and key in cache:
         psms = cache[key]
     else:
         try:
-            psms = dataset(build_psms(tab, var["order"]), enforce=case["enforce"])
+            if explicit:
+                psms = dataset(build_psms(tab, var["order"], colnames=list(reversed(names))), enforce=case["enforce"],
+                               feature_columns=list(names))
+            else:
+                psms = dataset(build_psms(tab, var["order"]), enforce=case["enforce"])
         except ValueError as e:
             psms = e
         if cache is not None:
@@ -491,7 +499,9 @@ def observed_perm(case, var, obs):
     pos = {ids[i]: p for p, i in enumerate(var["order"])}
     for ev in obs["events"]:
         if ev[0] == "score":
-            return [pos[r] for r in ev[1]]
+            # (an id the dataset does not hold — e.g. because the estimator was handed other columns than the named
+            #  features in the given order — is reported by the caller as "not every PSM exactly once")
+            return [pos.get(r, -1) for r in ev[1]]
     return list(range(len(var["order"])))
 
 
